@@ -191,6 +191,13 @@ func knownFindingReproducers(c *Ctx) {
 		{"nil-map-assignment", "var m map[string]int; m[\"a\"] = 1"},
 		{"type-assertion", "var i any = \"s\"; _ = i.(int)"},
 		{"nil-pointer-field", "var p *struct{ a int }; _ = p.a"},
+		{"nil-pointer-field-set", "var p *struct{ a int }; p.a = 1"},
+		{"nil-pointer-field-op", "var p *struct{ a int }; p.a++"},
+		{"nil-pointer-load", "var p *int; _ = *p"},
+		{"nil-pointer-store", "var p *int; *p = 1"},
+		{"nil-array-pointer-set", "var p *[2]int; p[1] = 2"},
+		{"nil-array-pointer-range", "var p *[2]int; for i, x := range p { _, _ = i, x }"},
+		{"defer-nil-func", "var f func(); defer f()"},
 		{"nil-func-call", "var f func(); f()"},
 		{"string-index", "s := \"abc\"; i := 7; _ = s[i]"},
 		{"slice-bounds", "s := []int{1}; i := 7; _ = s[1:i]"},
